@@ -71,6 +71,11 @@ M = [
  ('pickle-drops-solver-options', 'direct_method.py', "    def clean(self):\n        self.V = None\n        self.P = []\n", "    def clean(self):\n        self.V = None\n        self.P = []\n\n    def __getstate__(self):\n        d = dict(self.__dict__)\n        d['_solver_options'] = {}\n        return d\n", ['C18']),
  ('pickle-param-value-order', 'stage.py', "    def iter_stages(self, include_self=False):", "    def __setstate__(self, d):\n        self.__dict__.update(d)\n        ks = list(self._param_vals.keys())\n        if len(ks) >= 2:\n            a, b = self._param_vals[ks[0]], self._param_vals[ks[1]]\n            if DM(a).shape == DM(b).shape:\n                self._param_vals[ks[0]], self._param_vals[ks[1]] = b, a\n\n    def iter_stages(self, include_self=False):", ['C18']),
  ('save-damages-original', 'ocp.py', "    def save(self,name):\n        self._untranscribe()", "    def save(self,name):\n        self._untranscribe()\n        self._initial = type(self._initial)()", ['C18']),
+ # --- C12
+ ('clone-ignores-T-override', 'stage.py', '        if "T" not in kwargs:\n            ret._T = copy(self._T)', '        if True:\n            ret._T = copy(self._T)', ['C12']),
+ ('clone-shares-initial', 'stage.py', "        ret._initial = HashOrderedDict(zip(res[n_constr+1:], self._initial.values()))", "        ret._initial = HashOrderedDict()", ['C12']),
+ ('stage-objective-dropped', 'sampling_method.py', "    def add_objective(self, stage, opti):\n        opti.add_objective(self.eval(stage, stage._objective))", "    def add_objective(self, stage, opti):\n        if stage is stage.master or stage.master._stages[0] is stage: opti.add_objective(self.eval(stage, stage._objective))", ['C12']),
+ ('master-eval-wrong-stage', 'sampling_method.py', "        return stage.master._method.eval_top(stage.master,\n                                             stage._expr_apply(expr,\n                                                               p=veccat(*self.P),", "        return stage.master._method.eval_top(stage.master,\n                                             stage.master._stages[0]._expr_apply(expr,\n                                                               p=veccat(*self.P),", ['C12']),
 ]
 
 def main():
